@@ -56,7 +56,12 @@ TIERS = {
     'thorough': dict(win=4, max_cells=13, enum=6, sample=24),
 }
 DISK_KINDS = list(FAULT_KINDS) + ['ABSENT']
-UNKNOWN = ['NOSUCHFN', 'MYUDF2', '_xlfn.NEWFN', '_xlfn.XYZ.ABC']
+# (names of functions Excel has and this library has not, and names that end
+# in / contain the name of a function it has)
+UNKNOWN = ['NOSUCHFN', 'MYUDF2', '_xlfn.NEWFN', '_xlfn.XYZ.ABC',
+           '_xlfn.XMATCH', '_xlfn.XLOOKUP', '_xlfn.LET', '_xlfn.XSUM',
+           '_xlfn.NMAX', '_xlfn.LMIN', '_xlfn._xlws.SORTBY', 'XMATCH',
+           'SUMX', 'MAX2']
 
 
 # ------------------------------------------------------------------ generate
